@@ -418,7 +418,11 @@ class TrackWorld(World):
                                         "out": self._pick_name(r, m)})
 
     def _g_aggregate(self, r, m):
-        return {"opr": r.choice(AGG), "in1": self._pick_input(r, m)}
+        st = {"opr": r.choice(AGG), "in1": self._pick_input(r, m)}
+        if r.random() < 0.25:
+            # list form: one number per listed feature
+            st["ins"] = [self._pick_input(r, m) for _ in range(r.randint(1, 3))]
+        return st
 
     def _g_operate_any(self, r, m):
         kind = r.choice(["u", "u", "b", "b", "s"])
@@ -437,7 +441,8 @@ class TrackWorld(World):
     def _g_aggregate_any(self, r, m):
         if r.random() < 0.6:
             return {"opr": r.choice(ANY_AGG_U), "in1": self._pick_input(r, m)}
-        return {"opr": r.choice(ANY_AGG_B), "in1": self._pick_input(r, m), "in2": self._pick_input(r, m)}
+        return {"opr": r.choice(ANY_AGG_B), "in1": self._pick_input(r, m), "in2": self._pick_input(r, m),
+                "lists": r.random() < 0.2}
 
     def _g_biop(self, r, m):
         return {"other": r.randrange(self.cfg["sessions"]), "a": self._pick_input(r, m), "b": r.choice(NAMES),
@@ -1245,9 +1250,32 @@ class TrackWorld(World):
     def op_aggregate(self, st):
         from tracklib.core import Operator
         t, m = self._sess(st)
-        if len(m["obs"]) == 0 or not self._input_ok(m, st["in1"]):
+        if st.get("ins"):
+            return self._aggregate_list(st, t, m)
+        return self._aggregate_one(st, t, m, st["in1"])
+
+    def _aggregate_list(self, st, t, m):
+        """operate(Operator.SUM, [names]): the list form of a non-void operator, one value per name."""
+        from tracklib.core import Operator
+        if len(m["obs"]) == 0 or any(not self._input_ok(m, nm) for nm in st["ins"]):
             raise Skip()
-        x = self._col(m, st["in1"])
+        exps = [self._aggregate_one(st, t, m, nm, model_only=True) for nm in st["ins"]]
+        rv, exc = self.call(t.operate, getattr(Operator, st["opr"]), list(st["ins"]))
+        if exc is not None:
+            return self._unexpected("C01", exc, "operate(Operator.%s, %r)" % (st["opr"], st["ins"]))
+        self.probe("aggregate_over_a_list_of_features")
+        if not isinstance(rv, (list, tuple)) or len(rv) != len(exps) or \
+                any(not feq(float(a), float(b)) for a, b in zip(rv, exps)):
+            self.fail("C01", "return.values", "operate(Operator.%s) on the list %r" % (st["opr"], st["ins"]),
+                      jsonable(exps), jsonable(list(rv) if isinstance(rv, (list, tuple)) else rv))
+        self._check_all("C01", "aggregate over a list (read-only)")
+        self.observed(jsonable([float(v) for v in exps]))
+
+    def _aggregate_one(self, st, t, m, name, model_only=False):
+        from tracklib.core import Operator
+        if len(m["obs"]) == 0 or not self._input_ok(m, name):
+            raise Skip()
+        x = self._col(m, name)
         clean = [v for v in x if v == v]
         opr = st["opr"]
         if opr == "AVERAGER" and not clean:
@@ -1267,11 +1295,13 @@ class TrackWorld(World):
             for v in clean:
                 tot += v
             exp = tot / len(clean)
-        rv, exc = self.call(t.operate, getattr(Operator, opr), st["in1"])
+        if model_only:
+            return exp
+        rv, exc = self.call(t.operate, getattr(Operator, opr), name)
         if exc is not None:
             return self._unexpected("C01", exc, "operate(Operator.%s)" % opr)
         if not feq(float(rv), float(exp)):
-            self.fail("C01", "return.values", "operate(Operator.%s) on %r" % (opr, st["in1"]), exp, rv)
+            self.fail("C01", "return.values", "operate(Operator.%s) on %r" % (opr, name), exp, rv)
         self._check_all("C01", "aggregate (read-only)")
         self.observed(jsonable(float(rv)))
 
@@ -1359,7 +1389,11 @@ class TrackWorld(World):
         if opr in ANY_AGG_B:
             if not self._numeric(m, st["in2"]):
                 raise Skip()
-            rv, exc = self.call(t.operate, getattr(Operator, opr), st["in1"], st["in2"])
+            if st.get("lists"):
+                self.probe("binary_aggregate_over_lists_of_features")
+                rv, exc = self.call(t.operate, getattr(Operator, opr), [st["in1"], st["in2"]], [st["in2"], st["in1"]])
+            else:
+                rv, exc = self.call(t.operate, getattr(Operator, opr), st["in1"], st["in2"])
         else:
             rv, exc = self.call(t.operate, getattr(Operator, opr), st["in1"])
         if exc is not None and not isinstance(exc, DOMAIN_ERRORS):
